@@ -611,11 +611,11 @@ def work_prog(task: tuple) -> dict:
         _expr_batch(res, trees)
         return res
     if kind == 'e2':
-        _, leaves, ai, op = task
+        _, leaves, ai, op, chunk, nch = task
         res = new_result('expressions')
-        trees = L.depth2_for_left(list(leaves), ai, (op,))
+        trees = L.depth2_for_left(list(leaves), ai, (op,))[chunk::nch]
         _expr_batch(res, trees)
-        if ai == len(leaves) + 40 and op == '*' and trees:
+        if ai == len(leaves) + 40 and op == '*' and chunk == 0 and trees:
             res['samples'].append({
                 'family': 'expressions',
                 'text': L.expr_prog(L.etext(trees[len(trees) // 2])),
